@@ -275,7 +275,7 @@ theorem step_mapStep_some {s s' : State} {o : Oid} (h : step s (.mapStep o) = so
 
 theorem step_respond_some {s s' : State} {o : Oid} {x : Option Val}
     (h : step s (.respond o x) = some s') :
-    ∃ r, AL.get? s.ops o = some r ∧ r.phase = .stepped ∧ r.ret = x ∧
+    ∃ r, AL.get? s.ops o = some r ∧ r.phase = .stepped ∧ (x = r.ret ∨ x = none) ∧
       s' = { s with ops := AL.put s.ops o { r with phase := .done } } := by
   simp only [step] at h
   split at h
@@ -299,8 +299,8 @@ structure Inv (pre : List Ev) (s : State) : Prop where
   stepped : ∀ o r, AL.get? s.ops o = some r → r.phase ≠ .invoked →
     ∃ j : Nat, pre[j]? = some (Ev.mapStep o) ∧ ∀ k, r.op = .get k → MapValAt pre k j r.ret
   resp_rec : ∀ o x, Ev.respond o x ∈ pre →
-    ∃ r, AL.get? s.ops o = some r ∧ r.phase = .done ∧ r.ret = x
-  done_resp : ∀ o r, AL.get? s.ops o = some r → r.phase = .done → Ev.respond o r.ret ∈ pre
+    ∃ r, AL.get? s.ops o = some r ∧ r.phase = .done ∧ (x = r.ret ∨ x = none)
+  done_resp : ∀ o r, AL.get? s.ops o = some r → r.phase = .done → ∃ x, Ev.respond o x ∈ pre
   mapv : ∀ k, MapValAt pre k pre.length (lookup s.map k)
 
 theorem Inv.closed {pre : List Ev} {s : State} (h : Inv pre s) : Closed pre := by
@@ -1111,6 +1111,750 @@ theorem distinctValsB_spec {evs : List Ev} {k : Key} (h : distinctValsB evs k = 
   simp only [distinctValsB, List.all_eq_true] at h
   have := h o (opOf_some_mem_oids ho) o' (opOf_some_mem_oids ho')
   simpa [ho, ho'] using this
+
+/-! ## Completeness of the search: every certificate is found
+
+`acceptKey ops = true` iff some `L` passes `checkLin ops L`. -/
+
+/-- "`a` may be linearized before `b`". -/
+abbrev RT (a b : HOp) : Prop := a.invStamp < b.resStamp
+
+theorem picks_perm {α : Type} {l : List α} {a : α} {r : List α} (h : (a, r) ∈ picks l) :
+    l.Perm (a :: r) := by
+  induction l generalizing a r with
+  | nil => simp [picks] at h
+  | cons b t ih =>
+    simp only [picks, List.mem_cons, List.mem_map] at h
+    rcases h with h | ⟨p, hp, hpe⟩
+    · simp only [Prod.mk.injEq] at h
+      obtain ⟨rfl, rfl⟩ := h
+      exact List.Perm.refl _
+    · simp only [Prod.mk.injEq] at hpe
+      obtain ⟨rfl, rfl⟩ := hpe
+      have := ih (a := p.1) (r := p.2) hp
+      exact (List.Perm.cons b this).trans (List.Perm.swap _ _ _)
+
+theorem mem_picks {α : Type} {l : List α} {a : α} (h : a ∈ l) : ∃ r, (a, r) ∈ picks l := by
+  induction l with
+  | nil => simp at h
+  | cons b t ih =>
+    rcases List.mem_cons.1 h with rfl | h
+    · exact ⟨t, by simp [picks]⟩
+    · obtain ⟨r, hr⟩ := ih h
+      refine ⟨b :: r, ?_⟩
+      simp only [picks, List.mem_cons, List.mem_map]
+      exact Or.inr ⟨(a, r), hr, rfl⟩
+
+theorem enabled_iff {a : HOp} {rest : List HOp} :
+    enabled a rest = true ↔ ∀ b ∈ rest, RT a b := by
+  simp [enabled, RT]
+
+theorem mem_expand {nd x : Node} :
+    x ∈ expand nd ↔ ∃ a r c, (a, r) ∈ picks nd.rem ∧ enabled a r = true ∧
+      applyOp nd.cur a = some c ∧ x = ⟨r, c, a :: nd.path⟩ := by
+  simp only [expand, List.mem_filterMap]
+  constructor
+  · rintro ⟨p, hp, hx⟩
+    split at hx
+    · rename_i hen
+      cases hap : applyOp nd.cur p.1 with
+      | none => simp [hap] at hx
+      | some c =>
+        simp only [hap, Option.map_some, Option.some.injEq] at hx
+        exact ⟨p.1, p.2, c, hp, hen, hap, hx.symm⟩
+    · simp at hx
+  · rintro ⟨a, r, c, hp, hen, hap, rfl⟩
+    exact ⟨(a, r), hp, by simp [hen, hap]⟩
+
+theorem insertNode_sub {acc : List Node} {x y : Node} (h : y ∈ insertNode acc x) :
+    y ∈ acc ∨ y = x := by
+  unfold insertNode at h
+  split at h
+  · exact Or.inl h
+  · rcases List.mem_cons.1 h with h | h
+    · exact Or.inr h
+    · exact Or.inl h
+
+theorem foldl_insertNode_sub {l acc : List Node} {y : Node}
+    (h : y ∈ l.foldl insertNode acc) : y ∈ acc ∨ y ∈ l := by
+  induction l generalizing acc with
+  | nil => exact Or.inl h
+  | cons x t ih =>
+    simp only [List.foldl_cons] at h
+    rcases ih h with h | h
+    · rcases insertNode_sub h with h | h
+      · exact Or.inl h
+      · exact Or.inr (by simp [h])
+    · exact Or.inr (by simp [h])
+
+theorem dedupNodes_sub {l : List Node} {y : Node} (h : y ∈ dedupNodes l) : y ∈ l := by
+  rcases foldl_insertNode_sub h with h | h
+  · simp at h
+  · exact h
+
+theorem sameState_iff {x y : Node} : sameState x y = true ↔ x.cur = y.cur ∧ x.rem = y.rem := by
+  simp [sameState]
+
+/-- Every state present in the input survives in the output (possibly with another path). -/
+theorem foldl_insertNode_cover {l acc : List Node} {x : Node}
+    (h : (∃ y ∈ acc, y.cur = x.cur ∧ y.rem = x.rem) ∨ x ∈ l) :
+    ∃ y ∈ l.foldl insertNode acc, y.cur = x.cur ∧ y.rem = x.rem := by
+  induction l generalizing acc with
+  | nil =>
+    rcases h with h | h
+    · exact h
+    · simp at h
+  | cons z t ih =>
+    simp only [List.foldl_cons]
+    apply ih
+    rcases h with ⟨y, hy, hyx⟩ | h
+    · left
+      refine ⟨y, ?_, hyx⟩
+      unfold insertNode; split
+      · exact hy
+      · exact List.mem_cons_of_mem _ hy
+    · rcases List.mem_cons.1 h with rfl | h
+      · left
+        unfold insertNode; split
+        · rename_i hany
+          obtain ⟨y, hy, hs⟩ := List.any_eq_true.1 hany
+          have := sameState_iff.1 hs
+          exact ⟨y, hy, this.1.symm, this.2.symm⟩
+        · exact ⟨x, by simp, rfl, rfl⟩
+      · exact Or.inr h
+
+theorem dedupNodes_cover {l : List Node} {x : Node} (h : x ∈ l) :
+    ∃ y ∈ dedupNodes l, y.cur = x.cur ∧ y.rem = x.rem :=
+  foldl_insertNode_cover (Or.inr h)
+
+/-- Coverage: if a node whose pending set is a permutation of `S` and whose cell is `cur`
+is present, and `S` (in this order) is a legal continuation, the search reaches the end. -/
+theorem levels_complete (S : List HOp) : ∀ (nodes : List Node) (nd : Node), nd ∈ nodes →
+    nd.rem.Perm S → S.Pairwise RT → replay nd.cur S = true →
+    levels S.length nodes ≠ [] := by
+  induction S with
+  | nil =>
+    intro nodes nd hnd _ _ _
+    simp only [List.length_nil, levels]
+    exact List.ne_nil_of_mem hnd
+  | cons a S' ih =>
+    intro nodes nd hnd hperm hpw hrep
+    simp only [List.length_cons, levels]
+    simp only [replay] at hrep
+    cases hap : applyOp nd.cur a with
+    | none => simp [hap] at hrep
+    | some c =>
+      simp only [hap] at hrep
+      have ha : a ∈ nd.rem := hperm.mem_iff.2 (by simp)
+      obtain ⟨r, hr⟩ := mem_picks ha
+      have hr' : r.Perm S' := ((picks_perm hr).symm.trans hperm).cons_inv
+      have hpw' := List.pairwise_cons.1 hpw
+      have hen : enabled a r = true :=
+        enabled_iff.2 fun b hb => hpw'.1 b (hr'.mem_iff.1 hb)
+      have hx : (⟨r, c, a :: nd.path⟩ : Node) ∈ nodes.flatMap expand :=
+        List.mem_flatMap.2 ⟨nd, hnd, mem_expand.2 ⟨a, r, c, hr, hen, hap, rfl⟩⟩
+      obtain ⟨y, hy, hyc, hyr⟩ := dedupNodes_cover hx
+      exact ih _ y hy (by rw [hyr]; exact hr') hpw'.2 (by rw [hyc]; exact hrep)
+
+/-- Cell after replaying `L` (`none` = replay fails). -/
+def runCell (cur : Option Val) : List HOp → Option (Option Val)
+  | [] => some cur
+  | a :: l =>
+    match applyOp cur a with
+    | some c => runCell c l
+    | none => none
+
+theorem replay_eq_runCell (cur : Option Val) (L : List HOp) :
+    replay cur L = (runCell cur L).isSome := by
+  induction L generalizing cur with
+  | nil => rfl
+  | cons a l ih =>
+    simp only [replay, runCell]
+    cases applyOp cur a with
+    | none => rfl
+    | some c => exact ih c
+
+theorem runCell_snoc (cur : Option Val) (L : List HOp) (a : HOp) :
+    runCell cur (L ++ [a]) = (runCell cur L).bind (fun c => applyOp c a) := by
+  induction L generalizing cur with
+  | nil =>
+    simp only [List.nil_append, runCell, Option.bind_some]
+    cases applyOp cur a <;> rfl
+  | cons b l ih =>
+    simp only [List.cons_append, runCell]
+    cases applyOp cur b with
+    | none => rfl
+    | some c => exact ih c
+
+/-- Validity of a search node w.r.t. the key's operations `ops`. -/
+structure NodeOk (ops : List HOp) (nd : Node) : Prop where
+  perm : (nd.path.reverse ++ nd.rem).Perm ops
+  order : nd.path.reverse.Pairwise RT
+  cross : ∀ a ∈ nd.path, ∀ b ∈ nd.rem, RT a b
+  cell : runCell none nd.path.reverse = some nd.cur
+
+theorem NodeOk_expand {ops : List HOp} {nd x : Node} (h : NodeOk ops nd) (hx : x ∈ expand nd) :
+    NodeOk ops x ∧ x.rem.length + 1 = nd.rem.length := by
+  obtain ⟨a, r, c, hp, hen, hap, rfl⟩ := mem_expand.1 hx
+  have hperm := picks_perm hp
+  have ha : a ∈ nd.rem := hperm.mem_iff.2 (by simp)
+  have hen' := enabled_iff.1 hen
+  refine ⟨⟨?_, ?_, ?_, ?_⟩, ?_⟩
+  · simp only [List.reverse_cons, List.append_assoc, List.singleton_append]
+    exact (List.Perm.append_left _ hperm.symm).trans h.perm
+  · simp only [List.reverse_cons, List.pairwise_append, List.pairwise_cons, List.mem_reverse,
+      List.mem_singleton]
+    refine ⟨h.order, ⟨by simp, List.Pairwise.nil⟩, ?_⟩
+    intro z hz y hy; rw [hy]; exact h.cross z hz a ha
+  · intro x hx b hb
+    have hb' : b ∈ nd.rem := hperm.mem_iff.2 (List.mem_cons_of_mem _ hb)
+    rcases List.mem_cons.1 hx with rfl | hx
+    · exact hen' b hb
+    · exact h.cross x hx b hb'
+  · simp only [List.reverse_cons, runCell_snoc, h.cell, Option.bind_some, hap]
+  · simpa using hperm.length_eq.symm
+
+theorem levels_valid {ops : List HOp} : ∀ (d : Nat) (nodes : List Node),
+    (∀ nd ∈ nodes, NodeOk ops nd ∧ nd.rem.length = d) →
+    ∀ x ∈ levels d nodes, NodeOk ops x ∧ x.rem.length = 0 := by
+  intro d
+  induction d with
+  | zero => intro nodes h x hx; exact h x hx
+  | succ d ih =>
+    intro nodes h x hx
+    simp only [levels] at hx
+    refine ih _ ?_ x hx
+    intro y hy
+    obtain ⟨nd, hnd, hy'⟩ := List.mem_flatMap.1 (dedupNodes_sub hy)
+    obtain ⟨h1, h2⟩ := NodeOk_expand (h nd hnd).1 hy'
+    exact ⟨h1, by have := (h nd hnd).2; omega⟩
+
+theorem NodeOk_root (ops : List HOp) : NodeOk ops ⟨ops, none, []⟩ :=
+  ⟨by simp, by simp, by simp, rfl⟩
+
+theorem checkLin_of_NodeOk {ops : List HOp} {x : Node} (h : NodeOk ops x)
+    (hlen : x.rem.length = 0) : checkLin ops x.path.reverse = true := by
+  have hrem : x.rem = [] := List.eq_nil_of_length_eq_zero hlen
+  have hperm := h.perm
+  rw [hrem, List.append_nil] at hperm
+  simp only [checkLin, Bool.and_eq_true]
+  refine ⟨⟨List.isPerm_iff.2 hperm, (orderOk_iff _).2 h.order⟩, ?_⟩
+  rw [replay_eq_runCell, h.cell]; rfl
+
+/-- The search is complete for certificates: it accepts iff some linear order passes the
+checker. -/
+theorem acceptKey_iff (ops : List HOp) :
+    acceptKey ops = true ↔ ∃ L, checkLin ops L = true := by
+  constructor
+  · exact acceptKey_checkLin
+  · rintro ⟨L, hL⟩
+    simp only [checkLin, Bool.and_eq_true] at hL
+    obtain ⟨⟨hperm, hord⟩, hrep⟩ := hL
+    have hperm := List.isPerm_iff.1 hperm
+    have hne := levels_complete L [⟨ops, none, []⟩] ⟨ops, none, []⟩ (by simp) hperm.symm
+      ((orderOk_iff L).1 hord) hrep
+    rw [hperm.length_eq] at hne
+    have hvalid := levels_valid (ops := ops) ops.length [⟨ops, none, []⟩]
+      (by intro nd hnd; simp only [List.mem_singleton] at hnd; subst hnd
+          exact ⟨NodeOk_root ops, rfl⟩)
+    unfold acceptKey searchKey
+    cases hlv : levels ops.length [⟨ops, none, []⟩] with
+    | nil => exact absurd hlv hne
+    | cons x t =>
+      have := hvalid x (by rw [hlv]; simp)
+      simp only
+      exact checkLin_of_NodeOk this.1 this.2
+
+/-! ## Completeness w.r.t. model R: the recorded history of an execution is accepted -/
+
+theorem firstPos_some {β : Type} {p : Ev → Option β} {l : List Ev} {i : Nat} {b : β}
+    (h : firstPos p l = some (i, b)) : ∃ e, l[i]? = some e ∧ p e = some b := by
+  induction l generalizing i with
+  | nil => simp [firstPos] at h
+  | cons e es ih =>
+    simp only [firstPos] at h
+    split at h
+    · rename_i b' hb'
+      simp only [Option.some.injEq, Prod.mk.injEq] at h
+      obtain ⟨rfl, rfl⟩ := h
+      exact ⟨e, by simp, hb'⟩
+    · cases hf : firstPos p es with
+      | none => simp [hf] at h
+      | some x =>
+        simp only [hf, Option.map_some, Option.some.injEq, Prod.mk.injEq] at h
+        obtain ⟨rfl, rfl⟩ := h
+        obtain ⟨e', h1, h2⟩ := ih (i := x.1) (by rw [hf])
+        exact ⟨e', by simpa using h1, h2⟩
+
+theorem firstPos_of_mem {β : Type} {p : Ev → Option β} {l : List Ev} {e : Ev} {b : β}
+    (he : e ∈ l) (hp : p e = some b) : ∃ x, firstPos p l = some x := by
+  induction l with
+  | nil => simp at he
+  | cons e' es ih =>
+    simp only [firstPos]
+    split
+    · exact ⟨_, rfl⟩
+    · rename_i hn
+      rcases List.mem_cons.1 he with rfl | he
+      · rw [hp] at hn; simp at hn
+      · obtain ⟨x, hx⟩ := ih he
+        exact ⟨_, by rw [hx]; rfl⟩
+
+theorem hopOf_spec {evs : List Ev} {o : Oid} {h : HOp} (hh : hopOf evs o = some h) :
+    evs[h.invStamp]? = some (.invoke h.thread o h.op) ∧
+    evs[h.resStamp]? = some (.respond o h.result) := by
+  unfold hopOf at hh
+  split at hh
+  · rename_i q t op a r hi hr
+    simp only [Option.some.injEq] at hh
+    subst hh
+    obtain ⟨e1, h1, h2⟩ := firstPos_some hi
+    obtain ⟨e2, h3, h4⟩ := firstPos_some hr
+    constructor
+    · cases e1 <;> simp at h2
+      obtain ⟨rfl, rfl, rfl⟩ := h2
+      exact h1
+    · cases e2 <;> simp at h4
+      obtain ⟨rfl, rfl⟩ := h4
+      exact h3
+  · simp at hh
+
+theorem hopOf_exists {evs : List Ev} {o : Oid} {t : Tid} {op : Op} {r : Option Val}
+    (hi : Ev.invoke t o op ∈ evs) (hr : Ev.respond o r ∈ evs) : ∃ h, hopOf evs o = some h := by
+  have h1 : ∃ x, invOf evs o = some x := by
+    unfold invOf
+    exact firstPos_of_mem (b := (t, op)) hi (by simp)
+  have h2 : ∃ y, resOf evs o = some y := by
+    unfold resOf
+    exact firstPos_of_mem (b := r) hr (by simp)
+  obtain ⟨⟨q, t', op'⟩, hx⟩ := h1
+  obtain ⟨⟨a, r'⟩, hy⟩ := h2
+  exact ⟨⟨t', q, a, op', r'⟩, by simp only [hopOf, hx, hy]⟩
+
+theorem mem_stepOids {evs : List Ev} {o : Oid} : o ∈ stepOids evs ↔ Ev.mapStep o ∈ evs := by
+  induction evs with
+  | nil => simp [stepOids]
+  | cons e es ih => cases e <;> simp [stepOids, ih]
+
+theorem mem_respOids {evs : List Ev} {o : Oid} :
+    o ∈ respOids evs ↔ ∃ r, Ev.respond o r ∈ evs := by
+  induction evs with
+  | nil => simp [respOids]
+  | cons e es ih =>
+    cases e <;> simp [respOids, ih]
+    grind
+
+theorem stepOids_append (l1 l2 : List Ev) : stepOids (l1 ++ l2) = stepOids l1 ++ stepOids l2 := by
+  induction l1 with
+  | nil => rfl
+  | cons e es ih => cases e <;> simp [stepOids, ih]
+
+theorem respOids_append (l1 l2 : List Ev) : respOids (l1 ++ l2) = respOids l1 ++ respOids l2 := by
+  induction l1 with
+  | nil => rfl
+  | cons e es ih => cases e <;> simp [respOids, ih]
+
+theorem respond_unique {evs : List Ev} {s : State} (h : run evs = some s)
+    {a a' : Nat} {o : Oid} {x x' : Option Val} (ha : evs[a]? = some (.respond o x))
+    (ha' : evs[a']? = some (.respond o x')) : a = a' := by
+  have key : ∀ (a b : Nat) (x x' : Option Val), a < b → evs[a]? = some (.respond o x) →
+      evs[b]? = some (.respond o x') → False := by
+    intro a b x x' hab ha hb
+    obtain ⟨sp, sp', h1, h2, _⟩ := run_prefix_step h b _ hb
+    obtain ⟨r, hr, hph, _⟩ := step_respond_some h2
+    obtain ⟨r', hr', hph', _⟩ := (Inv_run h1).resp_rec o x (mem_take_of_pos hab ha)
+    rw [hr] at hr'; simp only [Option.some.injEq] at hr'; subst hr'
+    rw [hph] at hph'; simp at hph'
+  rcases Nat.lt_trichotomy a a' with h1 | h1 | h1
+  · exact (key _ _ _ _ h1 ha ha').elim
+  · exact h1
+  · exact (key _ _ _ _ h1 ha' ha).elim
+
+theorem stepOids_nodup : ∀ {evs : List Ev} {s : State}, run evs = some s →
+    (stepOids evs).Nodup := by
+  intro evs
+  induction evs using list_snoc_induction with
+  | nil => intro s _; simp [stepOids]
+  | snoc pre e ih =>
+    intro s h
+    obtain ⟨s0, h0, h1⟩ := (run_snoc pre e s).1 h
+    have hnd := ih h0
+    rw [stepOids_append]
+    cases e with
+    | mapStep o =>
+      simp only [stepOids, List.nodup_append, List.mem_singleton]
+      refine ⟨hnd, by simp, ?_⟩
+      intro a ha b hb
+      subst hb
+      intro hab; subst hab
+      obtain ⟨r, hr, hph, _⟩ := step_mapStep_some h1
+      obtain ⟨r', hr', hph'⟩ := (Inv_run h0).step_rec a (mem_stepOids.1 ha)
+      rw [hr] at hr'; simp only [Option.some.injEq] at hr'; subst hr'
+      exact hph' hph
+    | _ => simpa [stepOids] using hnd
+
+theorem respOids_nodup : ∀ {evs : List Ev} {s : State}, run evs = some s →
+    (respOids evs).Nodup := by
+  intro evs
+  induction evs using list_snoc_induction with
+  | nil => intro s _; simp [respOids]
+  | snoc pre e ih =>
+    intro s h
+    obtain ⟨s0, h0, h1⟩ := (run_snoc pre e s).1 h
+    have hnd := ih h0
+    rw [respOids_append]
+    cases e with
+    | respond o x =>
+      simp only [respOids, List.nodup_append, List.mem_singleton]
+      refine ⟨hnd, by simp, ?_⟩
+      intro a ha b hb
+      subst hb
+      intro hab; subst hab
+      obtain ⟨r, hr, hph, _⟩ := step_respond_some h1
+      obtain ⟨x', hx'⟩ := mem_respOids.1 ha
+      obtain ⟨r', hr', hph', _⟩ := (Inv_run h0).resp_rec a x' hx'
+      rw [hr] at hr'; simp only [Option.some.injEq] at hr'; subst hr'
+      rw [hph] at hph'; simp at hph'
+    | _ => simpa [respOids] using hnd
+
+theorem complete_spec {evs : List Ev} (hc : complete evs = true) {t : Tid} {o : Oid} {op : Op}
+    (h : Ev.invoke t o op ∈ evs) : ∃ r, Ev.respond o r ∈ evs := by
+  simp only [complete, List.all_eq_true] at hc
+  have := hc _ h
+  simp only [List.any_eq_true] at this
+  obtain ⟨e', he', hm⟩ := this
+  cases e' <;> simp at hm
+  subst hm
+  exact ⟨_, he'⟩
+
+/-- In a complete execution the operations that took their map step are exactly the ones
+that responded. -/
+theorem stepOids_perm_respOids {evs : List Ev} {s : State} (h : run evs = some s)
+    (hc : complete evs = true) : (stepOids evs).Perm (respOids evs) := by
+  rw [List.perm_ext_iff_of_nodup (stepOids_nodup h) (respOids_nodup h)]
+  intro o
+  rw [mem_stepOids, mem_respOids]
+  constructor
+  · intro hm
+    obtain ⟨p, hp⟩ := List.mem_iff_getElem?.1 hm
+    obtain ⟨q, t, op, _, hq, _⟩ := mapStep_invoked_before h hp
+    exact complete_spec hc (List.mem_of_getElem? hq)
+  · rintro ⟨r, hr⟩
+    obtain ⟨a, ha⟩ := List.mem_iff_getElem?.1 hr
+    obtain ⟨p, _, hp⟩ := respond_after_mapStep h ha
+    exact List.mem_of_getElem? hp
+
+theorem hop_step {evs : List Ev} {s : State} (h : run evs = some s) {o : Oid} {a : HOp}
+    (ha : hopOf evs o = some a) :
+    ∃ p, a.invStamp < p ∧ p < a.resStamp ∧ evs[p]? = some (.mapStep o) := by
+  obtain ⟨h1, h2⟩ := hopOf_spec ha
+  obtain ⟨p, hp1, hp2⟩ := respond_after_mapStep h h2
+  obtain ⟨q, t, op, hq1, hq2, _⟩ := mapStep_invoked_before h hp2
+  have := invoke_unique h hq2 h1
+  subst this
+  exact ⟨p, hq1, hp1, hp2⟩
+
+theorem stepOids_pairwise {R : Oid → Oid → Prop} {evs : List Ev}
+    (hR : ∀ (i j : Nat) o1 o2, i < j → evs[i]? = some (.mapStep o1) →
+      evs[j]? = some (.mapStep o2) → R o1 o2) : (stepOids evs).Pairwise R := by
+  induction evs with
+  | nil => simp [stepOids]
+  | cons e es ih =>
+    have ih' := ih (fun i j o1 o2 hij h1 h2 =>
+      hR (i + 1) (j + 1) o1 o2 (by omega) (by simpa using h1) (by simpa using h2))
+    cases e with
+    | mapStep o =>
+      simp only [stepOids, List.pairwise_cons]
+      refine ⟨?_, ih'⟩
+      intro o2 ho2
+      obtain ⟨j, hj⟩ := List.mem_iff_getElem?.1 (mem_stepOids.1 ho2)
+      exact hR 0 (j + 1) o o2 (by omega) (by simp) (by simpa using hj)
+    | _ => simpa [stepOids] using ih'
+
+theorem respOids_pairwise {R : Oid → Oid → Prop} {evs : List Ev}
+    (hR : ∀ (i j : Nat) o1 o2 x1 x2, i < j → evs[i]? = some (.respond o1 x1) →
+      evs[j]? = some (.respond o2 x2) → R o1 o2) : (respOids evs).Pairwise R := by
+  induction evs with
+  | nil => simp [respOids]
+  | cons e es ih =>
+    have ih' := ih (fun i j o1 o2 x1 x2 hij h1 h2 =>
+      hR (i + 1) (j + 1) o1 o2 x1 x2 (by omega) (by simpa using h1) (by simpa using h2))
+    cases e with
+    | respond o x =>
+      simp only [respOids, List.pairwise_cons]
+      refine ⟨?_, ih'⟩
+      intro o2 ho2
+      obtain ⟨x2, hx2⟩ := mem_respOids.1 ho2
+      obtain ⟨j, hj⟩ := List.mem_iff_getElem?.1 hx2
+      exact hR 0 (j + 1) o o2 x x2 (by omega) (by simp) (by simpa using hj)
+    | _ => simpa [respOids] using ih'
+
+/-- Linearization witness for key `k`: the completed operations on `k` in map-step order. -/
+def linOf (evs : List Ev) (k : Key) : List HOp :=
+  ((stepOids evs).filterMap (hopOf evs)).filter (fun a => a.op.key == k)
+
+theorem linOf_pairwise {evs : List Ev} {s : State} (h : run evs = some s) (k : Key) :
+    (linOf evs k).Pairwise RT := by
+  unfold linOf
+  apply List.Pairwise.filter
+  refine List.Pairwise.filterMap (R := fun o1 o2 => ∀ a, hopOf evs o1 = some a →
+    ∀ b, hopOf evs o2 = some b → RT a b) (hopOf evs) (fun o1 o2 hr a ha b hb => hr a ha b hb) ?_
+  apply stepOids_pairwise
+  intro i j o1 o2 hij h1 h2 a ha b hb
+  obtain ⟨p1, a1, _, a3⟩ := hop_step h ha
+  obtain ⟨p2, _, b2, b3⟩ := hop_step h hb
+  have e1 := mapStep_unique h a3 h1
+  have e2 := mapStep_unique h b3 h2
+  simp only [RT]
+  omega
+
+theorem linOf_perm {evs : List Ev} {s : State} (h : run evs = some s)
+    (hc : complete evs = true) (k : Key) :
+    (linOf evs k).Perm ((historyOf evs).filter (fun a => a.op.key == k)) :=
+  ((stepOids_perm_respOids h hc).filterMap (hopOf evs)).filter _
+
+theorem MapValAt_unique {evs : List Ev} {k : Key} {j : Nat} {x y : Option Val}
+    (hx : MapValAt evs k j x) (hy : MapValAt evs k j y) : x = y := by
+  have wk : ∀ {e : Ev} {z : Option Val}, effect evs e = some (k, z) → writesKey evs e k = true :=
+    fun he => by simp [writesKey, he]
+  rcases hx with ⟨rfl, hx⟩ | ⟨i, e, h1, h2, h3, h4⟩
+  · rcases hy with ⟨rfl, _⟩ | ⟨i', e', h1', h2', h3', _⟩
+    · rfl
+    · have := hx i' (by omega) h1' e' h2'
+      rw [wk h3'] at this; simp at this
+  · rcases hy with ⟨rfl, hy⟩ | ⟨i', e', h1', h2', h3', h4'⟩
+    · have := hy i (by omega) h1 e h2
+      rw [wk h3] at this; simp at this
+    · rcases Nat.lt_trichotomy i i' with hc | hc | hc
+      · have := h4 i' (by omega) h1' e' h2'
+        rw [wk h3'] at this; simp at this
+      · subst hc
+        rw [h2] at h2'; simp only [Option.some.injEq] at h2'; subst h2'
+        rw [h3] at h3'; simpa using h3'
+      · have := h4' i (by omega) h1 e h2
+        rw [wk h3] at this; simp at this
+
+/-- The value a `get` responds with is the map's value in the state before its map step. -/
+theorem get_result_eq {pre suf : List Ev} {g : Oid} {sf s0 : State}
+    (h : run (pre ++ .mapStep g :: suf) = some sf) (h0 : run pre = some s0)
+    {t : Tid} {k : Key} {x : Option Val}
+    (hop : opOf (pre ++ .mapStep g :: suf) g = some (t, .get k))
+    (hres : Ev.respond g x ∈ pre ++ .mapStep g :: suf) : x = lookup s0.map k := by
+  have hi0 := Inv_run h0
+  have h1 := MapValAt_append (.mapStep g :: suf) hi0.closed (Nat.le_refl _) (hi0.mapv k)
+  have h2 := get_reads h (j := pre.length) (by simp) hop hres
+  exact MapValAt_unique h2 h1
+
+/-- The witness restricted to the map steps of a prefix (records taken from the full trace). -/
+def linPre (evs pre : List Ev) (k : Key) : List HOp :=
+  ((stepOids pre).filterMap (hopOf evs)).filter (fun a => a.op.key == k)
+
+theorem linPre_snoc (evs pre : List Ev) (e : Ev) (k : Key) :
+    linPre evs (pre ++ [e]) k = linPre evs pre k ++
+      (match e with
+       | .mapStep o => ((hopOf evs o).toList).filter (fun a => a.op.key == k)
+       | _ => []) := by
+  simp only [linPre, stepOids_append, List.filterMap_append, List.filter_append]
+  congr 1
+  cases e with
+  | mapStep o =>
+    simp only [stepOids, List.filterMap_cons, List.filterMap_nil]
+    cases hopOf evs o <;> rfl
+  | _ => rfl
+
+/-- In a complete execution every operation that took its map step has a record, with the
+operation it was invoked as. -/
+theorem hopOf_of_step {pre suf : List Ev} {o : Oid} {sf s0 : State}
+    (h : run (pre ++ .mapStep o :: suf) = some sf)
+    (hc : complete (pre ++ .mapStep o :: suf) = true) (h0 : run pre = some s0)
+    {r : OpRec} (hr : AL.get? s0.ops o = some r) :
+    ∃ a, hopOf (pre ++ .mapStep o :: suf) o = some a ∧ a.op = r.op ∧
+      Ev.respond o a.result ∈ pre ++ .mapStep o :: suf ∧
+      opOf (pre ++ .mapStep o :: suf) o = some (r.tid, r.op) := by
+  have hop0 : opOf pre o = some (r.tid, r.op) := by rw [(Inv_run h0).ops_eq, hr]; rfl
+  have hop := opOf_append_of_some (.mapStep o :: suf) hop0
+  obtain ⟨q, hq⟩ := opOf_some_pos hop
+  obtain ⟨x, hx⟩ := complete_spec hc (List.mem_of_getElem? hq)
+  obtain ⟨a, ha⟩ := hopOf_exists (List.mem_of_getElem? hq) hx
+  obtain ⟨a1, a2⟩ := hopOf_spec ha
+  have := invoke_opOf h a1
+  rw [hop] at this
+  simp only [Option.some.injEq, Prod.mk.injEq] at this
+  exact ⟨a, ha, this.2.symm, List.mem_of_getElem? a2, hop⟩
+
+theorem applyOp_ins {c : Option Val} {a : HOp} {k : Key} {v : Val} (h : a.op = .ins k v) :
+    applyOp c a = some (some v) := by
+  unfold applyOp; rw [h]
+
+theorem applyOp_del {c : Option Val} {a : HOp} {k : Key} (h : a.op = .del k) :
+    applyOp c a = some none := by
+  unfold applyOp; rw [h]
+
+theorem applyOp_get_none {c : Option Val} {a : HOp} {k : Key} (h : a.op = .get k)
+    (hr : a.result = none) : applyOp c a = some none := by
+  unfold applyOp; rw [h, hr]
+
+theorem applyOp_get_some {c : Option Val} {a : HOp} {k : Key} {v : Val} (h : a.op = .get k)
+    (hr : a.result = some v) (hc : c = some v) : applyOp c a = some c := by
+  unfold applyOp; rw [h, hr]; simp [hc]
+
+/-- Replaying the witness along the execution: the cell agrees with the map whenever the
+map holds a value (the cell may be stale only while the map holds `none`). -/
+theorem replay_linPre {evs : List Ev} {sf : State} (h : run evs = some sf)
+    (hc : complete evs = true) (k : Key) :
+    ∀ (pre suf : List Ev) (s : State), pre ++ suf = evs → run pre = some s →
+      ∃ c, runCell none (linPre evs pre k) = some c ∧
+        (lookup s.map k = none ∨ c = lookup s.map k) := by
+  intro pre
+  induction pre using list_snoc_induction with
+  | nil =>
+    intro suf s _ hrun
+    simp only [run, runFrom, Option.some.injEq] at hrun
+    subst hrun
+    exact ⟨none, rfl, Or.inl rfl⟩
+  | snoc pre e ih =>
+    intro suf s heq hrun
+    obtain ⟨s0, h0, h1⟩ := (run_snoc pre e s).1 hrun
+    have heq' : pre ++ e :: suf = evs := by simpa using heq
+    obtain ⟨c, hc1, hc2⟩ := ih (e :: suf) s0 heq' h0
+    rw [linPre_snoc]
+    cases e with
+    | invoke t o op =>
+      obtain ⟨_, _, rfl⟩ := step_invoke_some h1
+      exact ⟨c, by simpa using hc1, hc2⟩
+    | respond o x =>
+      obtain ⟨_, _, _, _, rfl⟩ := step_respond_some h1
+      exact ⟨c, by simpa using hc1, hc2⟩
+    | daemon k' =>
+      have := step_daemon_some h1
+      subst this
+      refine ⟨c, by simpa using hc1, ?_⟩
+      simp only [lookup_remove]
+      split
+      · exact Or.inl rfl
+      · exact hc2
+    | mapStep o =>
+      obtain ⟨r, hr, _, _, hmap⟩ := step_mapStep_some h1
+      subst heq'
+      obtain ⟨a, ha, haop, hares, hopo⟩ := hopOf_of_step h hc h0 hr
+      simp only [ha, Option.toList_some, List.filter_cons, List.filter_nil]
+      by_cases hk : a.op.key = k
+      · simp only [hk, beq_self_eq_true, if_true, runCell_snoc, hc1, Option.bind_some]
+        rw [hmap]
+        cases hop : r.op with
+        | ins k' v =>
+          rw [hop] at haop
+          have : k' = k := by rw [haop] at hk; exact hk
+          subst this
+          exact ⟨some v, applyOp_ins haop, Or.inr (by simp [lookup_store])⟩
+        | del k' =>
+          rw [hop] at haop
+          have : k' = k := by rw [haop] at hk; exact hk
+          subst this
+          exact ⟨none, applyOp_del haop, Or.inl (by simp [lookup_remove])⟩
+        | get k' =>
+          rw [hop] at haop
+          have : k' = k := by rw [haop] at hk; exact hk
+          subst this
+          rw [hop] at hopo
+          have hx := get_result_eq h h0 hopo hares
+          simp only
+          cases hres : a.result with
+          | none =>
+            refine ⟨none, applyOp_get_none haop hres, Or.inl ?_⟩
+            rw [← hx, hres]
+          | some v =>
+            have hl : lookup s0.map k' = some v := by rw [← hx, hres]
+            have hcv : c = some v := by
+              rcases hc2 with h' | h'
+              · rw [hl] at h'; simp at h'
+              · rw [h', hl]
+            exact ⟨c, applyOp_get_some haop hres hcv, Or.inr (by rw [hcv, hl])⟩
+      · have hkb : (a.op.key == k) = false := by simpa using hk
+        simp only [hkb, Bool.false_eq_true, if_false, List.append_nil]
+        refine ⟨c, hc1, ?_⟩
+        rw [hmap]
+        rw [haop] at hk
+        cases hop : r.op with
+        | ins k' v =>
+          rw [hop] at hk
+          simp only [lookup_store]
+          rw [if_neg (by simpa [Op.key] using hk)]
+          exact hc2
+        | del k' =>
+          rw [hop] at hk
+          simp only [lookup_remove]
+          rw [if_neg (by simpa [Op.key] using hk)]
+          exact hc2
+        | get k' => exact hc2
+
+theorem linOf_replay {evs : List Ev} {sf : State} (h : run evs = some sf)
+    (hc : complete evs = true) (k : Key) : replay none (linOf evs k) = true := by
+  obtain ⟨c, hc1, _⟩ := replay_linPre h hc k evs [] sf (by simp) h
+  rw [replay_eq_runCell]
+  show (runCell none (linPre evs evs k)).isSome = true
+  rw [hc1]; rfl
+
+theorem threadsOk_iff (h : List HOp) :
+    threadsOk h = true ↔ h.Pairwise (fun a b => a.thread ≠ b.thread ∨
+      a.resStamp < b.invStamp ∨ b.resStamp < a.invStamp) := by
+  induction h with
+  | nil => simp [threadsOk]
+  | cons a l ih => simp [threadsOk, ih, List.pairwise_cons, or_assoc]
+
+theorem historyOf_threadsOk {evs : List Ev} {s : State} (h : run evs = some s) :
+    threadsOk (historyOf evs) = true := by
+  rw [threadsOk_iff]
+  unfold historyOf
+  refine List.Pairwise.filterMap (R := fun o1 o2 => ∀ a, hopOf evs o1 = some a →
+    ∀ b, hopOf evs o2 = some b → (a.thread ≠ b.thread ∨
+      a.resStamp < b.invStamp ∨ b.resStamp < a.invStamp)) (hopOf evs)
+    (fun o1 o2 hr a ha b hb => hr a ha b hb) ?_
+  apply respOids_pairwise
+  intro i j o1 o2 x1 x2 hij h1 h2 a ha b hb
+  obtain ⟨a1, a2⟩ := hopOf_spec ha
+  obtain ⟨b1, b2⟩ := hopOf_spec hb
+  obtain ⟨pa, a3, a4, _⟩ := hop_step h ha
+  have ei := respond_unique h a2 h1
+  have ej := respond_unique h b2 h2
+  by_cases ht : a.thread = b.thread
+  · right
+    rw [ht] at a1
+    rcases Nat.lt_trichotomy a.invStamp b.invStamp with hlt | heq | hgt
+    · obtain ⟨a', x, c1, c2, c3⟩ := thread_sequential h a1 b1 hlt
+      have := respond_unique h c3 a2
+      left; omega
+    · rw [heq, b1] at a1
+      simp only [Option.some.injEq, Ev.invoke.injEq] at a1
+      obtain ⟨_, ho, _⟩ := a1
+      subst ho
+      have := respond_unique h h1 h2
+      omega
+    · obtain ⟨a', x, c1, c2, c3⟩ := thread_sequential h b1 a1 hgt
+      have := respond_unique h c3 b2
+      omega
+  · exact Or.inl ht
+
+theorem historyOf_stamps {evs : List Ev} {s : State} (h : run evs = some s) :
+    ∀ a ∈ historyOf evs, a.invStamp < a.resStamp := by
+  intro a ha
+  obtain ⟨o, _, ho⟩ := List.mem_filterMap.1 ha
+  obtain ⟨p, h1, h2, _⟩ := hop_step h ho
+  omega
+
+/-- **Completeness of the acceptor w.r.t. model R.** The history recorded from any complete
+well-formed execution is accepted. -/
+theorem acceptR_complete_aux {evs : List Ev} (hwf : WF evs) (hc : complete evs = true) :
+    acceptR (historyOf evs) = true := by
+  obtain ⟨s, h⟩ := WF_iff.1 hwf
+  simp only [acceptR, wfHistory, Bool.and_eq_true, List.all_eq_true, decide_eq_true_eq]
+  refine ⟨⟨historyOf_stamps h, historyOf_threadsOk h⟩, ?_⟩
+  intro k _
+  rw [acceptKey_iff]
+  refine ⟨linOf evs k, ?_⟩
+  simp only [checkLin, Bool.and_eq_true]
+  exact ⟨⟨List.isPerm_iff.2 (linOf_perm h hc k), (orderOk_iff _).2 (linOf_pairwise h k)⟩,
+    linOf_replay h hc k⟩
 
 end ConcR
 end MiniMoka
